@@ -279,8 +279,32 @@ func (m *CDense) Copy(a CMatrix) (r, c int) {
 	if r == 0 || c == 0 {
 		return 0, 0
 	}
-	// TODO(btracey): Check for overlap when complex version exists.
 	// TODO(btracey): Add fast-paths.
+	aU, trans, conj := untransposeExtractCmplx(a)
+	if aU, ok := aU.(*CDense); ok {
+		amat := aU.mat
+		switch {
+		case trans != conj:
+			// The source is transposed with respect to the receiver.
+			if amat.Stride != 1 {
+				m.checkOverlap(amat)
+			}
+		case amat.Stride != m.mat.Stride:
+			// The order chosen below is only
+			// safe for equal strides.
+			m.checkOverlap(amat)
+		case offsetComplex(m.mat.Data, amat.Data) < 0:
+			// The source starts before the receiver: copy
+			// backwards so that elements they share are
+			// read before they are overwritten.
+			for i := r - 1; i >= 0; i-- {
+				for j := c - 1; j >= 0; j-- {
+					m.set(i, j, a.At(i, j))
+				}
+			}
+			return r, c
+		}
+	}
 	for i := 0; i < r; i++ {
 		for j := 0; j < c; j++ {
 			m.set(i, j, a.At(i, j))
